@@ -181,10 +181,12 @@ def finishScope (root : NameMap) : List Var :=
 
 def initSt : St := { cur := [], seen := [], issues := [] }
 
+/-- The variables `_finish_scope` reports as unused at the end of the module. -/
+def unusedReported (p : Prog) : List Var := finishScope (run p [] initSt).cur
+
 /-- `process_ast`: visit the module, then `_finish_scope`. -/
 def analyse (p : Prog) : List Issue :=
-  let o := run p [] initSt
-  o.issues ++ (finishScope o.cur).map fun x => ⟨.unused, x, 0⟩
+  (run p [] initSt).issues ++ (unusedReported p).map fun x => ⟨.unused, x, 0⟩
 
 /-! ## Concrete semantics 1: all branch-outcome vectors (if-subset)
 
